@@ -1104,22 +1104,29 @@ impl ChainListener for ChainMonitor {
     where
         F: FnOnce(&mut dyn push_decoder::Listener),
     {
-        let mut state = self.get_state();
-        let saw_block = state.saw_block;
-
-        let mut decode_state_lock = self.decode_state.lock().expect("lock");
-
-        let decode_state = decode_state_lock.get_or_insert_with(|| BlockDecodeState::new(&*state));
+        // Neither lock is held while the listener runs: it calls the commitment point
+        // provider, which takes the channel lock, while channel requests take the monitor
+        // state under their channel lock.  Block streaming is serialized by the tracker
+        // lock, so nobody else needs the decode state in the meantime.
+        // lock order: state, then decode_state
+        let (saw_block, mut decode_state) = {
+            let state = self.get_state();
+            let taken = self.decode_state.lock().expect("lock").take();
+            (state.saw_block, taken.unwrap_or_else(|| BlockDecodeState::new(&*state)))
+        };
 
         let mut listener = PushListener {
             commitment_point_provider: &*self.commitment_point_provider,
-            decode_state,
+            decode_state: &mut decode_state,
             saw_block,
         };
         f(&mut listener);
+        let saw_block = listener.saw_block;
 
+        let mut state = self.get_state();
+        *self.decode_state.lock().expect("lock") = Some(decode_state);
         // update the saw_block flag, in case the listener saw a block start event
-        state.saw_block = listener.saw_block;
+        state.saw_block = saw_block;
     }
 
     fn on_streamed_block_abort(&self) {
